@@ -9,7 +9,8 @@
 EXTENDS Integers, Sequences, FiniteSets, TLC
 CONSTANTS PoolSize,       \* 0 = unbounded
           NReq, Reuse,    \* Reuse: idle_timeout is set (clients poll again after a delivery)
-          KF_NoRespawn    \* deviation: _remove_client does not start a client for pending requests
+          KF_NoRespawn,   \* deviation: _remove_client does not start a client for pending requests
+          MaxClients      \* bound on client greenlets ever started (requeue / idle-expiry cycles are unbounded otherwise)
 
 VARIABLES clients, queue, result, called, nextc, conns, maxconns
 vars == <<clients, queue, result, called, nextc, conns, maxconns>>
@@ -20,6 +21,7 @@ InPool == {c \in DOMAIN clients : clients[c].st # "gone"}
 Init == clients = <<>> /\ queue = <<>> /\ result = [r \in Reqs |-> 0] /\ called = {} /\ nextc = 1 /\ conns = 0 /\ maxconns = 0
 
 AddClient(cs) == cs \o <<[st |-> "new", req |-> 0]>>
+Bounded == Len(clients) <= MaxClients
 \* attempt(): _check_idle + append, no yield in between
 Attempt(r) ==
   /\ r \notin called /\ called' = called \cup {r}
